@@ -216,6 +216,12 @@ func init() {
 	}, propMeta{Technique: "interprocedural taint analysis over go/ssa and the VTA call graph (sources, sanitisers, mutator and publication sinks all derived from the source)",
 		LevelText: "all 66 lookup call sites are sources; every sink reached by a tainted value is an obligation; sanitised hand-offs are counted with a floor.", LevelNote: "signature fields = all fields of T except labels/annotations listed in the engine; publication is a sink because assignment stores through the published pointer (derived: a store through the asserted last-evaluated value exists)", DesignRef: "4 TB; 5 C12"})
 
+	claim("C13", PropertySpec{
+		Engines: []EngineSpec{all("NL")},
+		Clause: "Narrow clause: no dispatch on the length of an identifier's text. Every comparison of len(text) with a constant in base, eval, method_evaluator, parser and cmd (23 today) is an emptiness test, a conjunct next to a decoration test of the same text, or a bounds guard of exactly the strength the indexing it dominates needs.",
+		NotCovered: "everything else about names: table keys, classification by character class, collisions with configured names",
+	}, propMeta{Technique: "def-use and dominance rule on len comparisons over go/ssa (bounds-guard strength compared with the dominated index sites)", LevelText: "all length comparisons on text are enumerated and decided.", LevelNote: "narrow by design: only length-dependence is decided", DesignRef: "4 NL; 5 C13"})
+
 	claim("C14", PropertySpec{
 		Engines: []EngineSpec{rules("ORD", "ORD-canon")},
 		Clause: "In the argument binder every order-sensitive use of the call-site arguments is on the canonicalised list (the raw list is only measured and canonicalised), and the canonicaliser sorts the keyword partition by key.",
